@@ -787,3 +787,86 @@ func RunC06Exhaustive(c *core.Ctx, idx int) {
 		c.Sample("m1-exhaustive-stream", map[string]any{"program": p.String(), "schedules_explored": explored, "complete": complete})
 	}
 }
+
+// RunC05BusySource: a queue is constructed from another queue that is full and has a
+// producer parked on it (real scheduler: the parked producer has to be really parked).
+// What the constructor sees of the parked value is up to it, but it must return.
+func RunC05BusySource(c *core.Ctx, idx int) {
+	col.VerifSetHook(nil)
+	Q := col.Queue[int64](notation)
+	forms := []string{"class.MakeFromSequence", "module.Queue(sequence)"}
+	form := forms[idx%len(forms)]
+	capa := []uint{1, 2, 16, 17, 33}[(idx/len(forms))%5]
+	src := Q.MakeWithCapacity(capa)
+	for i := uint(0); i < capa; i++ {
+		src.AddValue(int64(i))
+	}
+	parked := make(chan struct{})
+	go func() { defer close(parked); src.AddValue(int64(capa)) }()
+	for i := 0; i < 4000 && len(src.AsArray()) <= int(capa); i++ {
+		time.Sleep(50 * time.Microsecond)
+	}
+	cs := map[string]any{"constructor": form, "source": fmt.Sprintf("a full queue of capacity %d with one producer parked on it", capa)}
+	var q col.QueueLike[int64]
+	done := make(chan any, 1)
+	go func() {
+		defer func() { done <- recover() }()
+		if form == "class.MakeFromSequence" {
+			q = Q.MakeFromSequence(src)
+		} else {
+			q = mod.Queue[int64](col.Sequential[int64](src))
+		}
+	}()
+	release := func() {
+		src.RemoveHead()
+		<-parked
+		src.RemoveAll()
+	}
+	select {
+	case e := <-done:
+		release()
+		if e != nil {
+			c.Violation("constructor/panicked", fmt.Sprintf("%s from a busy queue panicked: %v", form, e), cs)
+			return
+		}
+	case <-time.After(3 * time.Second):
+		if blocked, where := stableBlock("AddValue"); blocked {
+			c.Violation("constructor/blocks-on-own-capacity", fmt.Sprintf("%s from a full queue with a parked producer does not return: %s", form, where), cs)
+		} else {
+			c.Inconclusive("a constructor call did not finish within 3 s and no stable blocked state was observed")
+		}
+		return
+	}
+	if n, cp := q.GetSize(), int(q.GetCapacity()); n > cp || (n != int(capa) && n != int(capa)+1) {
+		c.Violation("constructor/wrong-contents", fmt.Sprintf("%s from a busy queue of %d (+1 pending) yields size %d, capacity %d", form, capa, n, cp), cs)
+		return
+	}
+	c.Cover("constructors.busy-source")
+	c.Distinct(core.Mix(0xb5, uint64(idx)))
+}
+
+// ReproBusySource: Queue.MakeFromSequence from a full queue with a parked producer.
+func ReproBusySource() (bool, string) {
+	col.VerifSetHook(nil)
+	Q := col.Queue[int64](notation)
+	src := Q.Make()
+	capa := int(src.GetCapacity())
+	for i := 0; i < capa; i++ {
+		src.AddValue(int64(i))
+	}
+	go src.AddValue(int64(capa))
+	for i := 0; i < 4000 && len(src.AsArray()) <= capa; i++ {
+		time.Sleep(50 * time.Microsecond)
+	}
+	done := make(chan struct{})
+	go func() { defer close(done); Q.MakeFromSequence(src) }()
+	select {
+	case <-done:
+		return false, "Queue.MakeFromSequence from a full queue with a parked producer returns"
+	case <-time.After(3 * time.Second):
+		if blocked, where := stableBlock("AddValue"); blocked {
+			return true, "Queue.MakeFromSequence from a full queue with a parked producer does not return: " + where
+		}
+		return false, "inconclusive: the constructor did not finish within 3 s and no stable blocked state was observed"
+	}
+}
